@@ -97,7 +97,7 @@ def run(rep):
         "f64 arithmetic in the model is Lean's `Float` (IEEE binary64, same operations as Rust)",
         "error details that embed Rust float formatting are compared by kind only",
     ]
-    vlib.prelude(rep)
+    vlib.prelude(rep, extra_modules=['RsjProps.C02Eval'])
     rng = rep.rng
     n = 4000 if rep.tier == 'quick' else 40000
     depth = 5 if rep.tier == 'quick' else 6
